@@ -47,7 +47,11 @@ def run(chk):
         for (d, e) in offs:
             for ln in lens:
                 pk = bytes((7 * i + 1) & 255 for i in range(ln))
-                for name, prog in fixed_probes(d, e):
+                extra = [('ldabs0', B.ldabs('b', 0) + B.EXIT), ('ldind1', B.mov(3, 1) + B.ldind('b', 3, 0) + B.EXIT)]
+                if ln >= 8:
+                    extra.append(('ldabs-last-dw', B.ldabs('dw', ln - 8) + B.EXIT))
+                    extra.append(('ldind-last-h', B.mov(3, ln - 4) + B.ldind('h', 3, 2) + B.EXIT))
+                for name, prog in fixed_probes(d, e) + extra:
                     for eng in ENGINES:
                         for reps in (1, 2):
                             c = Case(prog, mem=pk, fam=name)
@@ -78,6 +82,10 @@ def run(chk):
                 exp = pk[0] if ln >= 1 and kind != 'nodata' else 'err'
             elif name == 'ldind1':
                 exp = pk[1] if ln >= 2 and kind != 'nodata' else 'err'
+            elif name == 'ldabs-last-dw':
+                exp = int.from_bytes(pk[-8:], 'little')
+            elif name == 'ldind-last-h':
+                exp = int.from_bytes(pk[-2:], 'little')
             elif name == 'fixed-len':
                 exp = ln
             elif name == 'fixed-start' and L:
